@@ -25,3 +25,7 @@ fn vw_finish(cases: usize) {
     if n > 0 { panic!("witness found ({n} failing cases of {cases})"); }
     vw_none(cases);
 }
+
+/// `thorough` tier: the driver exports VERIF_TIER; the searches enlarge their stated bound
+#[allow(dead_code)]
+fn vw_thorough() -> bool { std::env::var("VERIF_TIER").map(|t| t == "thorough").unwrap_or(false) }
